@@ -388,6 +388,12 @@ func judge(sc *scenario, o *outcome) (v verdict) {
 		limit(ms(sc.Timeout), "timeout")
 	}
 
+	if o.AtReturn.Runaway > 0 {
+		v.Outcome = "runaway"
+		v.Violation = fmt.Sprintf("Dial keeps retrying I/O after the deadline passed or the conn was closed (%d calls) instead of returning; once the conn reported a fatal error Dial returned err=%v at %v (due at %v: %v), conn closed: %v",
+			o.AtReturn.Runaway, o.Err, o.TR, v.Bound, v.HasBound, o.AtReturn.Closed)
+		return
+	}
 	if !o.Returned {
 		v.Outcome = "never-returned"
 		v.Violation = fmt.Sprintf("Dial never returned, even after the watchdog cancelled the context and the peer went away at %v (synctest: %s)", watchdogAfter, o.Deadlock)
